@@ -116,3 +116,33 @@ def comparison_path_values(n, bits=64, total=256):
                     v = (v << bits) | (limbs[j] if j < i else x if j == i else fill)
                 out.add(v)
     return sorted(out)
+
+
+def lowbyte_lookalike(ch, rng=None, k=None):
+    """a non-ASCII, non-whitespace character whose code point is congruent to ord(ch) modulo 256 (and, for k None, modulo 128 /
+    65536 variants as well): text containing it is NOT hexadecimal although a decoder that truncates code points would read `ch`"""
+    offs = [0x100, 0x400, 0x2100, 0x4E00, 0x1F400, 0xFF00 if ord(ch) < 0x60 else 0x1D700]
+    off = offs[k % len(offs)] if k is not None else (rng.choice(offs) if rng else offs[0])
+    return chr(ord(ch) + off)
+
+
+def lookalike_variants(text, rng, positions=None, count=6):
+    """copies of `text` (hex digits after an optional 0x) with one or several digits replaced by low-byte look-alikes"""
+    start = 2 if text[:2] in ("0x", "0X") else 0
+    idx = [i for i in range(start, len(text)) if text[i] in "0123456789abcdefABCDEF"]
+    out = []
+    if not idx:
+        return out
+    for k in range(count):
+        t = list(text)
+        for i in (rng.sample(idx, min(len(idx), rng.choice([1, 1, 2, 5]))) if positions is None else positions):
+            t[i] = lowbyte_lookalike(t[i], k=k + i)
+        out.append("".join(t))
+    t = list(text)
+    for i in idx:
+        t[i] = lowbyte_lookalike(t[i], k=0)
+    out.append("".join(t))  # every digit replaced
+    if start:
+        out.append(text[0] + lowbyte_lookalike(text[1], k=0) + text[2:])  # the x of the prefix
+        out.append(lowbyte_lookalike("0", k=0) + text[1:])
+    return out
